@@ -625,7 +625,20 @@ func ruleC20_3(c *Ctx) {
 	}
 	// the request given to the origin in the background carries that context
 	ok := false
-	for _, f := range append([]*ssa.Function{bg}, nestedClosures(bg)...) {
+	bgFuncs := append([]*ssa.Function{bg}, nestedClosures(bg)...)
+	// the goroutine's body may be a named function started with `go` (its request parameter is then followed to the
+	// argument of the go statement)
+	for _, f := range append([]*ssa.Function{}, bgFuncs...) {
+		instrsOf(f, func(in ssa.Instruction) {
+			if g, isGo := in.(*ssa.Go); isGo {
+				for _, cal := range c.P.RepoCallees(g) {
+					bgFuncs = append(bgFuncs, cal)
+					bgFuncs = append(bgFuncs, nestedClosures(cal)...)
+				}
+			}
+		})
+	}
+	for _, f := range bgFuncs {
 		instrsOf(f, func(in ssa.Instruction) {
 			call, isCall := in.(*ssa.Call)
 			if !isCall {
@@ -645,7 +658,7 @@ func ruleC20_3(c *Ctx) {
 				if !isHTTPRequestPtr(a.Type()) {
 					continue
 				}
-				c.P.TraceBack(a, TraceOpts{NoParams: true}, func(v ssa.Value, _ []int) bool {
+				c.P.TraceBack(a, TraceOpts{NoParams: f == bg}, func(v ssa.Value, _ []int) bool {
 					if wc, isC := v.(*ssa.Call); isC && callIsMethod(&wc.Call, "net/http", "Request", "WithContext") {
 						_, wargs := recvAndArgs(&wc.Call)
 						if ex, isEx := wargs[0].(*ssa.Extract); isEx && ex.Tuple == wt && ex.Index == 0 {
